@@ -109,6 +109,13 @@ func TestVerifC34Srt(t *testing.T) {
 		"#!::r=a=b", "#!::r==", "#!::u=1,u=2,u=", "#!::h=host,t=stream,r=p", "#!::zz=1", "#!::R=p", "#!:: r=p", "#!::r=p:u:s",
 		"#!::m=request#feedbackplay", "#!::r=p#feedbackplay", "#!::read:p", "read:#!::r=p", "\x00", "read:\x00:\xff", "#!::r=\xff\xfe,u=\x00"}
 
+	// the whole boundary corpus first, on every run (a bare action, empty fields, every separator count, both suffix forms)
+	for _, raw := range append(append([]string{}, boundary...), "publish#feedbackplay", "read#feedbackplay", "publish", "request") {
+		obs, res, class := vC34Unmarshal(t, raw)
+		out.Case(cqApp("SidRaw", cqBytes(raw), obs), map[string]any{"kind": "raw-corpus", "raw": vC34Q(raw), "result": res},
+			"sid-raw/"+class, class == "ok")
+	}
+
 	for i := 0; i < n; i++ {
 		switch k := r.Intn(10); {
 		case k < 4: // legacy id printed from fields
